@@ -1029,6 +1029,10 @@ async fn run(_tier: Tier) {
     if let Some((reader, soa_then)) = &held {
         // (A name one label outside the universe: no node of any version.)
         if let Ok(a) = query_zone(reader.as_ref(), &format!("held-reader-probe.{}", APEX), Rtype::A) {
+            if !a.authority.iter().any(|r| r.1 == Rtype::SOA) {
+                sim::violation(P8, "query", "held-reader-lost-its-soa".to_string(), format!("a reader taken when the SOA was [{}] and kept across later commits answers {} without an SOA in the authority section", soa_then, a.rcode));
+                return;
+            }
             for (o, t, _, rd) in &a.authority {
                 if *t == Rtype::SOA && canon_rdata(APEX, Rtype::SOA, rd) != canon_rdata(APEX, Rtype::SOA, soa_then) {
                     sim::violation(P8, "query", "negative-answer-with-another-versions-soa".to_string(), format!("a reader taken when the SOA was [{}] and kept across later commits answers NXDOMAIN with the SOA [{}] of {} in the authority section", soa_then, rd, o));
